@@ -442,7 +442,7 @@ def stmt_atoms(prog, f, block, sym, depth=0):
     for c, v in deciding_conditions(f, block, sym):
         none = (c.startswith('is_some(') and v == '0') or (c.startswith('is_none(') and v != '0') or (c.startswith('discr(') and v in ('0', 'else:1'))
         some = (c.startswith('is_some(') and v != '0') or (c.startswith('is_none(') and v == '0') or (c.startswith('discr(') and v in ('1', 'else:0'))
-        m = re.match(r'^(?:is_some|is_none|discr)\((?:as_ref\()?\(?\*?(?:stmt|select_stmt|self\.stmt)\)?\.(\w+)\)?\)$', c)
+        m = re.match(r'^(?:is_some|is_none|discr)\((?:as_ref\()?\(?\*?(?:stmt|select_stmt|self\.stmt|subquery)\)?\.(\w+)\)?\)$', c)
         if m and (none or some):
             out.add(m.group(1) + ('_none' if none else '_some'))
         elif re.search(r'\bstmt\.distinct$', c):
